@@ -11,7 +11,7 @@ ALLOWED = [
     ("storage-load", re.compile(r"^cw_storage_plus::(item::)?Item::load$"), "PAIR_INFO exists after instantiation"),
     ("address", re.compile(r"^cosmwasm_std::(\S*::)?Api::addr_(canonicalize|humanize|validate)$"), "stored canonical addresses / the cw20 envelope's sender are valid addresses"),
     ("query", "QUERY_ROLES", "balance / supply queries of live contracts"),
-    ("serialize", re.compile(r"^cosmwasm_std::(\S*::)?to_binary$"), "serialising plain message structs"),
+    ("serialize", re.compile(r"^cosmwasm_std::(\S*::)?(to_binary|wasm_execute)$"), "serialising plain message structs"),
     ("decode", re.compile(r"^cosmwasm_std::(\S*::)?from_binary$"), "the hook message decoded to WithdrawLiquidity on this path"),
     ("transfer-ctor", None, "the payout constructor (its own sites are classified too)"),
     ("handler", None, "the withdraw handler itself"),
@@ -145,6 +145,21 @@ def _run(ctx):
                     ok = "guard"      # which conditions may lead to a rejection in the arm is decided by the arm-condition rule below
                 if role == "helper" and "generic_err" in detail:
                     ok = None
+                if ok is None and f.path == w.path:
+                    # a rejection that cannot meet an entitled holder: the statement is about amounts a > 0 up to the
+                    # holder's balance, and a balance never exceeds the supply (cw20-base) — `a == 0` and `supply < a`
+                    amt_i = common.param_index_of_type(w, r"^cosmwasm_std::\S*Uint128$")
+                    cs_ = lemmas.cond_strings(ctx, common.control_conditions(P, w, b))
+                    if amt_i is not None:
+                        AMT = P_(w, amt_i)
+                        if "is_zero(%s) is [True]" % AMT in cs_:
+                            ok = "zero amount (outside the statement: a > 0)"
+                        for c_ in cs_:
+                            m_ = re.match(r"^lt\(C:(\S+)@%s:bb(\d+)\.total_supply, %s\)$" % (re.escape(w.path), re.escape(AMT)), c_)
+                            if m_ and ctx.N.is_fn(m_.group(1), "q_token_info"):
+                                qv_ = P.val_call(w, w.body, int(m_.group(2)))
+                                if any(set(ctx.roots(a_)) == {"human(load(%s).liquidity_token)" % ctx.N.PAIR_INFO} for a_ in qv_[4]):
+                                    ok = "amount above the LP supply (a <= balance <= supply)"
             elif kind == "assert":
                 if detail == "bounds":
                     # constant index 0/1 into the 2-element refund vector is checked by C04.R3 (indices [0,1] of a map over [Asset; 2])
